@@ -542,6 +542,8 @@ prep_task(echsx_task_t t)
 	int rc = 0;
 
 #define NULFD	(nulfd_used++, nulfd)
+	/* mkstemp() has filled in the template for the task before us */
+	memcpy(tmpl + strlenof(tmpl) - 6U, "XXXXXX", 6U);
 	/* put some sane defaults into t */
 	t->ifd = t->ofd = t->efd = t->mfd = -1;
 	t->opip = t->epip = t->teeo = t->teee = -1;
@@ -1071,6 +1073,8 @@ cannot obtain lock: %s", STRERR);
 	with (echs_instant_t te = epoch_to_echs_instant(t->t_end.tv_sec)) {
 		size_t n;
 
+		/* the task before us left COMPLETED: in there */
+		memcpy(stmp + 2U, "DTSTAMP:", strlenof("DTSTAMP:"));
 		n = strlenof("XXDTSTAMP:");
 		n += dt_strf_ical(stmp + n, sizeof(stmp) - n, te);
 		stmp[n++] = '\n';
